@@ -181,6 +181,21 @@ def run_suite(ctx, only_best=False):
             C.add({"op": "sel.replaceTrim", "pop": pj, "new": nj, "n": ps}, tags(opt._population) if ok else rerr(r), {**meta, "op": "_replace_and_trim_population"})
             if ok and [a.cost for a in opt._population] != sorted(new)[:ps]:
                 ctx.fail("C16/_replace_and_trim_population/not-the-cheapest", f"{[a.cost for a in opt._population]}", SUITE, meta)
+        # _generate_group_population: slices + residual group (copies of the agents; the population itself untouched)
+        for ng in (1, 2, 3):
+            for na in sorted({1, 2, max(1, len(old) // ng)}):
+                for wr in (True, False):
+                    ps = rng.choice([len(old), len(old), len(old) + 1])
+                    opt = Scripted(BaseOptimizationConfig(population_size=ps, max_cycles=1))
+                    opt._task = task
+                    A = [make_agent(i, c) for i, c in enumerate(old)]
+                    opt._population = list(A)
+                    ok, r = call(opt._generate_group_population, ng, na, wr)
+                    impl = [tags(g) for g in r] if ok else rerr(r)
+                    C.add({"op": "sel.group", "pop": pop_json(old), "ps": ps, "nGroups": ng, "nAgents": na, "withResidual": wr}, impl,
+                          {"old": repr(old), "ps": ps, "n": (ng, na, wr), "op": "_generate_group_population", "nt": True})
+                    if ok and (tags(opt._population) != list(range(len(old))) or any(a is b for g in r for a in g for b in A)):
+                        ctx.fail("C16/_generate_group_population/mutates-or-aliases-the-population", f"{old} groups={impl}", SUITE, {"old": old, "n": (ng, na, wr)})
         # _greedy_select_agent on every pair of single agents
         for co in old[:2]:
             for cn in new[:2]:
